@@ -37,6 +37,16 @@ type Sched struct {
 	// ExtBlocks counts how often a thread was found blocked on something the
 	// scheduler does not hook (a raw channel, a third-party lock).
 	ExtBlocks int
+	// AdoptUnknown: a goroutine the code under test spawned itself becomes a
+	// scheduled thread at its first hooked operation (Me creates the thread and
+	// the operation parks it until it is chosen). Every dispatch then first
+	// waits until no unknown goroutine is still on its way to such an operation.
+	AdoptUnknown bool
+	// Leaked counts adopted goroutines that were still alive (parked on
+	// something unhooked) when Run returned.
+	Leaked      int
+	nAdopted    int
+	monitorGoid int64
 }
 
 // extWait is the resource an externally blocked thread "waits for": nothing
@@ -80,6 +90,9 @@ type Thread struct {
 	// like any other thread) at its next hooked operation.
 	ext      bool
 	reported bool
+	// adopted: not started by Run (no wrapper around its function): its end is
+	// noticed by the monitor, and it is never unwound with a panic.
+	adopted bool
 }
 
 var (
@@ -128,7 +141,16 @@ func (s *Sched) Me() *Thread {
 	if !s.active {
 		return nil
 	}
-	return s.byGoid[id]
+	t := s.byGoid[id]
+	if t == nil && s.AdoptUnknown && id != s.monitorGoid {
+		s.nAdopted++
+		t = &Thread{ID: len(s.threads), Name: fmt.Sprintf("spawned%d", s.nAdopted), s: s, resume: make(chan struct{}, 1),
+			goid: id, adopted: true, ext: true, blocked: extWait{}}
+		s.threads = append(s.threads, t)
+		s.byGoid[id] = t
+		s.Log = append(s.Log, t.Name+":adopted")
+	}
+	return t
 }
 
 // Run executes all threads to completion under the explorer's choices.
@@ -189,14 +211,58 @@ func (s *Sched) Run() {
 	// first dispatch: nobody is running
 	s.dispatch(nil, "start", true)
 	// every thread either exits or is abandoned (blocked outside the scheduler when the run was torn down)
+	s.mu.Lock()
+	registered := 0
+	for _, t := range s.threads {
+		if !t.adopted {
+			registered++
+		}
+	}
+	s.mu.Unlock()
 	seen := map[*Thread]bool{}
-	for len(seen) < len(s.threads) {
+	for len(seen) < registered {
 		seen[<-s.exited] = true
 	}
 	close(stop)
 	s.mu.Lock()
 	s.active = false
+	var release []*Thread
+	for _, t := range s.threads {
+		if t.adopted && !t.done {
+			release = append(release, t)
+		}
+	}
 	s.mu.Unlock()
+	// adopted goroutines still parked at a hooked operation go on unscheduled;
+	// they must be gone (or parked for good) before the next execution starts,
+	// or its scheduler would adopt them
+	for _, t := range release {
+		select {
+		case t.resume <- struct{}{}:
+		default:
+		}
+	}
+	if len(release) > 0 {
+		deadline := time.Now().Add(2 * time.Second)
+		for time.Now().Before(deadline) {
+			st := goroutineStates()
+			left := false
+			for _, t := range release {
+				if _, ok := st[t.goid]; ok {
+					left = true
+				}
+			}
+			if !left {
+				break
+			}
+			time.Sleep(50 * time.Microsecond)
+		}
+		for _, t := range release {
+			if _, ok := goroutineStates()[t.goid]; ok {
+				s.Leaked++
+			}
+		}
+	}
 }
 
 // ---- threads blocked outside the scheduler ----
@@ -277,6 +343,9 @@ func anyBusy(states map[int64]gstate, self int64) bool {
 // scheduler go on without it.
 func (s *Sched) monitor(stop chan struct{}) {
 	self := goid()
+	s.mu.Lock()
+	s.monitorGoid = self
+	s.mu.Unlock()
 	tick := time.NewTicker(500 * time.Microsecond)
 	defer tick.Stop()
 	var last uint64
@@ -302,9 +371,16 @@ func (s *Sched) monitor(stop chan struct{}) {
 		if idle < 3*time.Millisecond {
 			continue
 		}
+		gone := false
 		quiet := func() bool {
 			st := goroutineStates()
 			g, ok := st[cur.goid]
+			if !ok && cur.adopted {
+				// an adopted goroutine has no wrapper that reports its end
+				gone = true
+				return !anyBusy(st, self)
+			}
+			gone = false
 			if !ok || !parkedStatus(g.status) {
 				return false
 			}
@@ -318,9 +394,26 @@ func (s *Sched) monitor(stop chan struct{}) {
 		if !quiet() {
 			continue
 		}
-		s.externalBlock(cur, p)
+		if gone {
+			s.adoptedGone(cur, p)
+		} else {
+			s.externalBlock(cur, p)
+		}
 		since = time.Now()
 	}
+}
+
+// adoptedGone: the running adopted goroutine has returned.
+func (s *Sched) adoptedGone(cur *Thread, p uint64) {
+	s.mu.Lock()
+	if s.progress != p || s.cur != cur || !s.active || cur.done {
+		s.mu.Unlock()
+		return
+	}
+	cur.done = true
+	s.Log = append(s.Log, cur.Name+":gone")
+	s.mu.Unlock()
+	s.dispatch(nil, "gone:"+cur.Name, true)
 }
 
 // externalBlock takes the running role away from cur (parked outside the
@@ -342,6 +435,23 @@ func (s *Sched) externalBlock(cur *Thread, p uint64) {
 // settleExt waits until every externally blocked thread is either parked again
 // or back under the scheduler, so that the enabled set does not depend on timing.
 func (s *Sched) settleExt() {
+	s.mu.Lock()
+	adoptive, mon := s.AdoptUnknown, s.monitorGoid
+	s.mu.Unlock()
+	if adoptive {
+		// goroutines the code under test has spawned must first arrive at a hooked
+		// operation (and be adopted), park somewhere else, or end
+		self := goid()
+		deadline := time.Now().Add(500 * time.Millisecond)
+		for time.Now().Before(deadline) {
+			st := goroutineStates()
+			delete(st, mon)
+			if !anyBusy(st, self) {
+				break
+			}
+			time.Sleep(20 * time.Microsecond)
+		}
+	}
 	for {
 		s.mu.Lock()
 		var ext []*Thread
@@ -408,7 +518,7 @@ func (t *Thread) rejoin(res any) {
 	s.mu.Lock()
 	ab := s.aborting
 	s.mu.Unlock()
-	if ab {
+	if ab && !t.adopted {
 		panic(abortSentinel{})
 	}
 }
@@ -496,7 +606,7 @@ again:
 		s.mu.Lock()
 		ab := s.aborting
 		s.mu.Unlock()
-		if ab {
+		if ab && !me.adopted {
 			panic(abortSentinel{})
 		}
 	}
@@ -517,7 +627,7 @@ func (s *Sched) abortAll(me *Thread) {
 			default:
 			}
 			s.mu.Lock()
-			abandon := t.ext && !t.reported
+			abandon := t.ext && !t.reported && !t.adopted
 			if abandon {
 				t.reported = true
 			}
@@ -528,7 +638,7 @@ func (s *Sched) abortAll(me *Thread) {
 			}
 		}
 	}
-	if me != nil && !me.done {
+	if me != nil && !me.done && !me.adopted {
 		panic(abortSentinel{})
 	}
 }
@@ -540,7 +650,7 @@ func (t *Thread) Point(label string) {
 	if !s.active {
 		ab := s.aborting
 		s.mu.Unlock()
-		if ab {
+		if ab && !t.adopted {
 			panic(abortSentinel{})
 		}
 		return
@@ -562,7 +672,7 @@ func (t *Thread) Block(res any, label string) {
 	if !s.active {
 		ab := s.aborting
 		s.mu.Unlock()
-		if ab {
+		if ab && !t.adopted {
 			panic(abortSentinel{})
 		}
 		runtime.Gosched()
